@@ -205,6 +205,7 @@ func C02(ctx *core.Ctx) {
 	ctx.Rule("C02.R9", "typedef resolution across includes: the aliased type of a typedef is resolved by the program whose index the alias was found in", 1)
 	typedefResolverAgreement(ctx, cc, "C02.R9")
 	scalarClassification(ctx, cc, "C02.R11")
+	c02UnionGuard(ctx, cc)
 	ctx.Rule("C02.R12", "typedef/type resolution is not cached across programs: a generator map field that memoises what the current program resolves is dropped where the program is switched", 1)
 	generatorCaches(ctx, cc, "C02.R12")
 
@@ -545,6 +546,46 @@ func C02(ctx *core.Ctx) {
 		}
 	} else {
 		ctx.Unresolved("C02.R5", "GetServiceMethodTypes", "function not found")
+	}
+
+	// ---- R13: no generator invents a field id ---------------------------------------------------
+	ctx.Rule("C02.R13", "field ids are the IDL's: outside the parser, a store to parser.Field.ID stores a declared field's ID (or a constant), never a computed number", 1)
+	{
+		nStores, nPkgs := 0, 0
+		seenPkg := map[*ssa.Package]bool{}
+		for _, fn := range cc.Fns {
+			if fn.Pkg == nil || !strings.Contains(fn.Pkg.Pkg.Path(), "/compiler/generator") {
+				continue
+			}
+			if !seenPkg[fn.Pkg] {
+				seenPkg[fn.Pkg] = true
+				nPkgs++
+			}
+			ssax.Instrs(fn, func(in ssa.Instruction) {
+				st, ok := in.(*ssa.Store)
+				if !ok {
+					return
+				}
+				fa, ok := st.Addr.(*ssa.FieldAddr)
+				if !ok || fieldNameOfAddr(fa) != "ID" || !ssax.TypeNamed(fa.X.Type(), "parser", "Field") {
+					return
+				}
+				nStores++
+				v := ssax.Strip(st.Val)
+				ok = false
+				if _, isK := v.(*ssa.Const); isK {
+					ok = true
+				}
+				if ld, isLd := v.(*ssa.UnOp); isLd && ld.Op == token.MUL && fieldNameOfAddr(ld.X) == "ID" {
+					if f2, isFA := ld.X.(*ssa.FieldAddr); isFA && ssax.TypeNamed(f2.X.Type(), "parser", "Field") {
+						ok = true
+					}
+				}
+				ctx.Check(ok, "C02.R13", QName(fn)+sprintf(" › field id store #%d takes a declared id", nStores), cc.IPos(st), "the stored value is the ID of a parsed field or a constant",
+					"a field id is computed by the generator ("+st.Val.String()+") instead of taken from the declaration: for a throws clause or argument list not numbered 1..n the generated struct writes/reads a field under an id the IDL gives to another field, so a conforming peer decodes the wrong field or skips it")
+			})
+		}
+		ctx.Check(nPkgs >= 5, "C02.R13", "generator packages › stores to parser.Field.ID examined", "", sprintf("%d generator package(s), %d store(s) to Field.ID", nPkgs, nStores), "generator packages not loaded")
 	}
 	_ = types.Typ
 }
